@@ -99,11 +99,11 @@ META = {
         "design_ref": "DESIGN.md §3 C07",
     },
     "C11": {
-        "text": "Coq theorems about the scan-based specification (unbounded strings): occupied positions are exactly the slots holding an operator, in time order; n is their number; first/last are the extremes; per-bond counts add up to n; "
+        "text": "Coq refinement theorem (no bounds): the linked structure of FastOps::mutate_p, transcribed branch by branch (quick install, unlink, relink, cursor advance), started from the structure and cursor a scan yields, ends in exactly the structure and cursor a scan of the updated slots yields — for every string, position and decision; by induction every reachable structure equals the scan of its contents. The model is replayed on the real mutation sequences and must reproduce the implementation's complete link structure. Also: theorems about the scan-based specification (unbounded strings): occupied positions are exactly the slots holding an operator, in time order; n is their number; first/last are the extremes; per-bond counts add up to n; "
                 "'variable has operators' holds iff some stored operator acts on it. The implementation's private linked structure (every previous/next link, global and per variable, n, p_ends, var_ends, bond counters) is read through serde after EVERY mutation "
                 "of long random mutation sequences (mutate_ps, sub-ranges, mutate_ops, sub-variable cursors, threaded mutate_p cursors, set_cutoff, new_from_ops, and the real samplers' histories) and compared in Coq with that specification; getters are compared with scans as well.",
-        "note": "Trusted: Coq kernel + vm_compute; serde view of the container. Partial: the refinement of mutate_p to the specification is established differentially after every mutation, not by a Coq proof over all mutation sequences.",
-        "technique": "Coq proof of the navigation specification + per-mutation differential check of every link field against it",
+        "note": "Trusted: Coq kernel + vm_compute; serde view of the container; Model/FastOps.v transcription (validated by replaying real mutate_p sweeps). Not transcribed: fill_args_at_p, clear_and_install_ops, mutate_subsection_ops, Varlist cursors (differential only); panic freedom is not a theorem.",
+        "technique": "Coq refinement proof (linked structure = scan of contents, induction over mutation sequences) + replay of real mutation sequences by the linked-structure model + per-mutation differential check of every link field",
         "design_ref": "DESIGN.md §3 C11",
     },
     "C18": {
